@@ -4,6 +4,7 @@ import (
 	"bytes"
 	"encoding/json"
 	"fmt"
+	"log"
 	"os"
 	"os/exec"
 	"path/filepath"
@@ -57,6 +58,20 @@ func (o c20Op) run() (res string) {
 		}
 	}()
 	switch o.Kind {
+	case "badext":
+		// the file-level helpers refusing an extension they do not know (o.Format): the error says which, every time
+		dir, err := os.MkdirTemp("", "c20ext")
+		if err != nil {
+			return "no temp dir"
+		}
+		defer os.RemoveAll(dir)
+		in := filepath.Join(dir, "in."+o.Format)
+		_ = os.WriteFile(in, []byte("1\n00:00:01,000 --> 00:00:02,000\nx\n"), 0o644)
+		_, e1 := astisub.OpenFile(in)
+		e2 := astisub.NewSubtitles().Write(filepath.Join(dir, "out."+o.Format))
+		first := fmt.Sprintf("%v|%v", e1, e2)
+		runtime.Gosched()
+		return first + "|" + fmt.Sprintf("%v|%v", e1, e2)
 	case "read":
 		return readCanon(o.Format, bytes.NewReader(o.Doc), o.Opts)
 	case "write":
@@ -83,6 +98,21 @@ func (o c20Op) run() (res string) {
 		}
 		return canon(b.sub)
 	}
+}
+
+// runLogged runs the operation with the standard logger redirected (sequential phases only) and returns what it logged,
+// timestamps aside.
+func runLogged(o c20Op) (res, logged string) {
+	var buf bytes.Buffer
+	flags, out := log.Flags(), log.Writer()
+	log.SetFlags(0)
+	log.SetOutput(&buf)
+	defer func() {
+		log.SetOutput(out)
+		log.SetFlags(flags)
+	}()
+	res = o.run()
+	return res, hexRe.ReplaceAllString(buf.String(), "")
 }
 
 func applyTransform(b *builtList, name string, d time.Duration, cues []cueSpec) {
@@ -188,11 +218,17 @@ func checkC20(c c20Case) string {
 	defer func() { astisub.Now = restore }()
 	if c.Cold && c.History {
 		first := make([]string, len(c.Ops))
+		firstLog := make([]string, len(c.Ops))
 		for i, o := range c.Ops {
-			first[i] = o.run()
+			first[i], firstLog[i] = runLogged(o)
 		}
 		for i := len(c.Ops) - 1; i >= 0; i-- {
-			if again := c.Ops[i].run(); again != first[i] {
+			again, againLog := runLogged(c.Ops[i])
+			if againLog != firstLog[i] {
+				return fmt.Sprintf("operation %d (%s %s%s) of a fresh process wrote something else to the log once other calls had been made: state is kept between calls\n--- as call number %d of the process ---\n%s\n--- later ---\n%s",
+					i, c.Ops[i].Kind, c.Ops[i].Format, c.Ops[i].Name, i+1, clip(firstLog[i], 400), clip(againLog, 400))
+			}
+			if again != first[i] {
 				return fmt.Sprintf("operation %d (%s %s%s) of a fresh process returned a different result once other calls had been made: state is kept between calls\n--- as call number %d of the process ---\n%s\n--- later ---\n%s",
 					i, c.Ops[i].Kind, c.Ops[i].Format, c.Ops[i].Name, i+1, clip(first[i], 500), clip(again, 500))
 			}
@@ -200,6 +236,7 @@ func checkC20(c c20Case) string {
 		return ""
 	}
 	want := make([]string, len(c.Ops))
+	logged := make([]string, len(c.Ops))
 	if c.Cold {
 		// the concurrent phase comes first; the sequential reference is taken afterwards
 		want = nil
@@ -208,11 +245,16 @@ func checkC20(c c20Case) string {
 		if want == nil {
 			break
 		}
-		want[i] = o.run()
+		want[i], logged[i] = runLogged(o)
 	}
 	// "alone" must not depend on what ran before: the same calls, one after the other, in the opposite order
 	for i := len(c.Ops) - 1; i >= 0 && want != nil; i-- {
-		if again := c.Ops[i].run(); again != want[i] {
+		again, againLog := runLogged(c.Ops[i])
+		if againLog != logged[i] {
+			return fmt.Sprintf("operation %d (%s %s%s) wrote something else to the log when the same calls were made one after the other in the opposite order: state is kept between calls\n--- first ---\n%s\n--- then ---\n%s",
+				i, c.Ops[i].Kind, c.Ops[i].Format, c.Ops[i].Name, clip(logged[i], 400), clip(againLog, 400))
+		}
+		if again != want[i] {
 			return fmt.Sprintf("operation %d (%s %s%s) returned a different result when the same calls were made one after the other in the opposite order: state is kept between calls\n--- first ---\n%s\n--- then ---\n%s",
 				i, c.Ops[i].Kind, c.Ops[i].Format, c.Ops[i].Name, clip(want[i], 500), clip(again, 500))
 		}
@@ -301,7 +343,9 @@ func withAnonymousRegion(format string, doc []byte) []byte {
 var c20Transforms = []string{"add", "fragment", "unfragment", "order", "merge", "optimize", "removestyling", "forceduration", "linear"}
 
 func genC20Op(t *rapid.T) c20Op {
-	switch rapid.IntRange(0, 2).Draw(t, "kind") {
+	switch rapid.IntRange(0, 12).Draw(t, "kind") % 4 {
+	case 3:
+		return c20Op{Kind: "badext", Format: rapid.SampledFrom([]string{"foo", "bar", "txt", "sub", "SRTX", "x"}).Draw(t, "badext")}
 	case 0:
 		f := rapid.SampledFrom(allFormats).Draw(t, "format")
 		o := c20Op{Kind: "read", Format: f, Doc: docGen(f).Draw(t, "doc")}
@@ -381,6 +425,14 @@ func TestC20(t *testing.T) {
 		// the writers with lazily built tables are always part of it
 		g := genGL(rt, false)
 		pool = append(pool, c20Op{Kind: "write", Format: "stl", Spec: &g}, c20Op{Kind: "write", Format: "ttml", Spec: &g})
+		// a document the SSA reader has remarks about (unknown sections, lines it does not understand), and extensions
+		// the file-level helpers refuse
+		nd, ncols := genSSADoc(rt, false)
+		nr := genSSARendering(rt, ncols)
+		nr.Junk, nr.UnknownSec = true, true
+		pool = append(pool, c20Op{Kind: "read", Format: "ssa", Doc: renderSSA(nd, nr)},
+			c20Op{Kind: "badext", Format: rapid.SampledFrom([]string{"foo", "txt", "SRTX"}).Draw(rt, "badext1")},
+			c20Op{Kind: "badext", Format: rapid.SampledFrom([]string{"bar", "sub", "x"}).Draw(rt, "badext2")})
 		// a language code the library has no name for, met by a reader and handed to a writer
 		code := rapid.SampledFrom([]string{"de", "xx", "it"}).Draw(rt, "langcode")
 		gl := genGL(rt, false)
